@@ -34,10 +34,13 @@ import (
 // replaced by harness actors that approve everything but answer only when the harness opens a
 // gate. Transactions are submitted through the tx actor like the HTTP interface does.
 //
-// judged:  (a) a submission that finds the pool at (or above) MAX_CAPACITY is answered
-//              ErrTxPoolFull and changes neither the pool nor the pending list;
-//          (b) an outsider's / a duplicate submission changes nothing;
-//          (c) after everything pending was verified the pool holds at most MAX_CAPACITY entries.
+// judged:  (a) pool + pending <= MAX_CAPACITY after every submission, pool <= MAX_CAPACITY once
+//              everything pending was verified;
+//          (b) a submission that meets pool+pending >= MAX_CAPACITY, an outsider's and a duplicate
+//              (of a pooled or a pending transaction) submission is answered with an error and
+//              changes neither the pool nor the pending list (duplicate may be refused as
+//              "duplicate" or, when full, as "full");
+//          (c) a new transaction of a permitted sender IS admitted while pool+pending < capacity.
 
 const c37CapEnabled = true
 
@@ -390,39 +393,53 @@ func capBody(ctx *capCtx, c c37Case) {
 		}
 		what := fmt.Sprintf("submission %d (%s) with pool=%d/%d pending=%d", i, kind, poolN, tc.MAX_CAPACITY, pendN)
 		grew := p2 != poolN || q2 != pendN
+		full := poolN+pendN >= tc.MAX_CAPACITY // verified + being verified already fill the capacity
+		if full {
+			atCap = true
+		}
+		refused := func(why string, reasons ...perr.ErrCode) {
+			okReason := false
+			if res != nil {
+				for _, r := range reasons {
+					if res.Err == r {
+						okReason = true
+					}
+				}
+			}
+			if grew || res == nil || res.Err == perr.ErrNoError || (len(reasons) > 0 && !okReason) {
+				ctx.Failf("%s: %s must be refused without effect; pool=%d pending=%d result=%v", what, why, p2, q2, res)
+			}
+		}
 		switch {
 		case kind == "outsider":
-			if grew || res == nil || res.Err == perr.ErrNoError {
-				ctx.Failf("%s: a sender that is neither relayer nor consensus peer must be refused without effect; pool=%d pending=%d result=%v", what, p2, q2, res)
+			refused("a sender that is neither relayer nor consensus peer")
+		case kind == "duppool" || kind == "duppending":
+			// either reason is a correct refusal; "full" only when it is full
+			if full {
+				refused("a transaction the pool already holds or is verifying", perr.ErrDuplicateInput, perr.ErrTxPoolFull)
+			} else {
+				refused("a transaction the pool already holds or is verifying", perr.ErrDuplicateInput)
 			}
-		case kind == "duppool":
-			if grew || res == nil || res.Err != perr.ErrDuplicateInput {
-				ctx.Failf("%s: a transaction already in the pool must be refused as duplicate without effect; pool=%d pending=%d result=%v", what, p2, q2, res)
-			}
-		case kind == "duppending":
-			if grew || res == nil || res.Err != perr.ErrDuplicateInput {
-				ctx.Failf("%s: a transaction already being verified must be refused as duplicate without effect; pool=%d pending=%d result=%v", what, p2, q2, res)
-			}
-		case poolN >= tc.MAX_CAPACITY:
-			atCap = true
-			if grew || res == nil || res.Err != perr.ErrTxPoolFull {
-				ctx.Failf("%s: the pool is full, the submission must be answered ErrTxPoolFull and change nothing; pool=%d pending=%d result=%v", what, p2, q2, res)
-			}
+		case full:
+			refused("a submission that meets a full pool (verified + pending = capacity)")
 		default:
-			// below capacity: not judged whether it is admitted; follow what happened
-			if p2 != poolN || (q2 != pendN && q2 != pendN+1) {
-				ctx.Failf("%s: unexpected bookkeeping, pool=%d pending=%d", what, p2, q2)
+			// new hash, room left: admission is required
+			if p2 != poolN || q2 != pendN+1 || res != nil {
+				ctx.Failf("%s: a new transaction from a permitted sender must be admitted for verification while pool+pending is below the capacity; pool=%d pending=%d result=%v",
+					what, p2, q2, res)
 			}
-			if q2 == pendN+1 {
-				sb.admitted = true
-				lastPending = tx
-				if res != nil {
-					ctx.Failf("%s: admitted for verification but already answered %v", what, res)
-				}
-				if poolN+q2 > tc.MAX_CAPACITY {
-					overAdmit++
-				}
-			}
+			sb.admitted = true
+			lastPending = tx
+		}
+		if q2 == pendN+1 && !sb.admitted {
+			sb.admitted = true // (only reachable behind a known finding) keep the bookkeeping in step
+			lastPending = tx
+		}
+		if p2+q2 > tc.MAX_CAPACITY {
+			overAdmit++
+			ctx.Label("cap:overshoot")
+			ctx.Known("capacity-check-ignores-pending",
+				"after %s: pool=%d + pending=%d exceed the capacity %d (admission check in txnpool_actor.go handleTransaction)", what, p2, q2, tc.MAX_CAPACITY)
 		}
 		poolN, pendN = p2, q2
 	}
@@ -473,8 +490,7 @@ func capBody(ctx *capCtx, c c37Case) {
 	if poolN > tc.MAX_CAPACITY {
 		ctx.Label("cap:overshoot")
 		ctx.Known("capacity-check-ignores-pending",
-			"pool holds %d verified transactions, capacity is %d: %d submissions were admitted while the pool held %d because the admission check "+
-				"(txnpool_actor.go handleTransaction: getTransactionCount() >= MAX_CAPACITY) does not count transactions still being verified",
+			"at quiescence the pool holds %d verified transactions, capacity is %d: %d submissions were admitted while the pool held %d",
 			poolN, tc.MAX_CAPACITY, admitted, want)
 	}
 }
